@@ -2,8 +2,8 @@ package harness
 
 import (
 	"bytes"
-	"net"
 	"fmt"
+	"net"
 	"os"
 	"path/filepath"
 	"sort"
@@ -717,14 +717,29 @@ func (x *SExec) doWrite(i int, op SOp) *Fail {
 		data []byte
 	)
 	t0 := time.Now()
-	switch op.K {
-	case "write":
+	if op.K == "write" {
 		data = payload(i, op.Seed, off, length)
-		n, err = c.WriteAt(data, off)
-	case "sync":
-		n, err = c.Sync()
-	case "unmap":
-		n, err = c.Unmap(off, length)
+	}
+	returned := make(chan struct{})
+	go func() {
+		switch op.K {
+		case "write":
+			n, err = c.WriteAt(data, off)
+		case "sync":
+			n, err = c.Sync()
+		case "unmap":
+			n, err = c.Unmap(off, length)
+		}
+		close(returned)
+	}()
+	select {
+	case <-returned:
+	case <-time.After(40 * time.Second):
+		// deadlines are 300 ms, a failed connection costs 2 s: forty seconds is a hang
+		for _, nd := range st.Nodes {
+			nd.ClearFaults()
+		}
+		return sfail(op.K+"|hangs", fmt.Sprintf("%s with per-replica outcomes %v did not return within 40 s (r/w deadline %v): the volume is stuck", op.K, op.Out, sRW), "C05", "C15", "C02")
 	}
 	dur := time.Since(t0)
 	ack := err == nil
@@ -780,7 +795,18 @@ func (x *SExec) doWrite(i int, op SOp) *Fail {
 	}
 	majority := len(applied) > len(W)/2
 	if ack && !majority {
-		return sfail(op.K+"|ack-without-majority", fmt.Sprintf("%s acknowledged but applied by %d of %d attached replicas (W=%v applied=%v)", op.K, len(applied), len(W), W, keys(applied)), "C02")
+		props := []string{"C02"}
+		rwLeft := 0
+		for j := range applied {
+			if modeBefore[j] == types.RW {
+				rwLeft++
+			}
+		}
+		if rwLeft < x.P.RF/2+1 {
+			// the replicas that failed it are gone: the volume had lost its quorum by the time it acknowledged
+			props = append(props, "C03")
+		}
+		return sfail(op.K+"|ack-without-majority", fmt.Sprintf("%s acknowledged but applied by %d of %d attached replicas (W=%v applied=%v; %d RW replicas of RF=%d left)", op.K, len(applied), len(W), W, keys(applied), rwLeft, x.P.RF), props...)
 	}
 	if !ack && majority {
 		return sfail(op.K+"|majority-but-failed", fmt.Sprintf("%s applied by %d of %d attached replicas (W=%v applied=%v) but reported failed: n=%d err=%v", op.K, len(applied), len(W), W, keys(applied), n, err), "C05", "C02")
